@@ -201,6 +201,20 @@ impl Prop for C13 {
                 }
             }
         }
+        // D2: large frames dribbled in (one byte, a few bytes per delivery): thousands of partial reads per frame
+        for big in [FrameSpec::Tpkt(4100), FrameSpec::Tpkt(4101), FrameSpec::Tpkt(8200), FrameSpec::Tpkt(20004), FrameSpec::Tpkt(65535), FrameSpec::FpLong(0, 4100), FrameSpec::FpLong(0, 4099), FrameSpec::FpLong(0x80, 0x7fff)] {
+            for k in [1usize, 2, 3, 7] {
+                cs.push(Case { frames: vec![big.clone(), SENT_FP, SENT_TPKT], plan: Plan::Cap(k), via_x224: false });
+            }
+        }
+        // E2: through x224::Client::read, fast-path frames with and without payload between slow-path frames
+        for fp in [FrameSpec::FpShort(0x00, 2), FrameSpec::FpShort(0x80, 2), FrameSpec::FpLong(0x40, 3), FrameSpec::FpShort(0x00, 3), FrameSpec::FpLong(0x00, 4)] {
+            for plan in [Plan::All, Plan::Cap(1)] {
+                cs.push(Case { frames: vec![FrameSpec::TpktX224(1), fp.clone(), FrameSpec::TpktX224(2)], plan: plan.clone(), via_x224: true });
+                cs.push(Case { frames: vec![fp.clone(), FrameSpec::TpktX224(3), fp.clone()], plan: plan.clone(), via_x224: true });
+                cs.push(Case { frames: vec![fp.clone(), fp.clone(), FrameSpec::FpShort(0xC0, 6)], plan: plan.clone(), via_x224: true });
+            }
+        }
         // E: through x224::Client::read (strips the 3-byte data TPDU header)
         for n in [0u16, 1, 5, 200] {
             for plan in [Plan::All, Plan::Cap(1), Plan::Cap(3)] {
@@ -227,7 +241,7 @@ impl Prop for C13 {
         json!({"idx": idx, "case": c, "stream_len": stream_of(c).len()})
     }
     fn rule(&self) -> String {
-        "cases = (three-frame stream, read schedule); streams enumerate every TPKT length field 0..65535, every short fast-path length x every first byte, every 15-bit long-form length; schedules enumerate caps {1,2,3,4,5,7,1500}, every single split offset, all pairs of splits inside the first two headers, and all 2^(n-1) compositions of short streams. Additionally 14 full real conversations over TLS (NLA on/off, with a reactivation, inputs and shutdown) are run with the transport delivering at most k bytes per read for k in {1,2,3,5,7,16,1000}. Non-trivial: first frame has an empty payload, or declares a length below its own header, or at least one split point falls inside a frame header.".into()
+        "cases = (three-frame stream, read schedule); streams enumerate every TPKT length field 0..65535, every short fast-path length x every first byte, every 15-bit long-form length; schedules enumerate caps {1,2,3,4,5,7,1500}, every single split offset, all pairs of splits inside the first two headers, and all 2^(n-1) compositions of short streams; frames of 4100..65535 bytes delivered 1, 2, 3 or 7 bytes at a time; streams read through x224::Client::read with fast-path frames with and without payload before, between and after slow-path frames. Additionally 14 full real conversations over TLS (NLA on/off, with a reactivation, inputs and shutdown) are run with the transport delivering at most k bytes per read for k in {1,2,3,5,7,16,1000}. Non-trivial: first frame has an empty payload, or declares a length below its own header, or at least one split point falls inside a frame header.".into()
     }
     fn assumptions(&self) -> Vec<String> {
         vec![
